@@ -299,6 +299,27 @@ def main() -> int:
             if bytes(b64decode_items(list(enc))) != base64.b64decode(enc):
                 bad += 1
                 print('B64DEC+CRLF MISMATCH', enc)
+        # lenient and strict decoding of malformed input: junk characters, padding in every amount
+        import binascii
+        from .core import Unsupported as _Uns
+        for L in range(0, 6):
+            for t in itertools.product('Ab0+/=!\r ', repeat=L):
+                sb = ''.join(t).encode()
+                for v in (False, True):
+                    try:
+                        want = base64.b64decode(sb, validate=v)
+                    except binascii.Error:
+                        want = 'ERR'
+                    try:
+                        got = bytes(b64decode_items(list(sb), v))
+                    except binascii.Error:
+                        got = 'ERR'
+                    except _Uns:
+                        continue
+                    nchecks += 1
+                    if got != want:
+                        bad += 1
+                        print('B64DEC MALFORMED MISMATCH', sb, v, got, want)
     print('difftest: %d patterns (%d skipped as unsupported), %d comparisons, %d mismatches'
           % (len(pats), len(skipped), nchecks, bad))
     for pat, why in skipped:
